@@ -1,5 +1,3 @@
-EVAL_ARGS = ['"eval"', "lua", '[]byte("1")', "e.key", "e.id", "e.ttl"]
-
 PROP = {
     "lean_modules": ["GunYu.Props.C15"],
     "audit_namespaces": ["GunYu.Props.C15"],
@@ -17,32 +15,20 @@ PROP = {
         "GunYu.Props.C15.holder_until_deadline",
         "GunYu.Props.C15.takeover_possible",
         "GunYu.Props.C15.ticker_failed_renewal_stops_leader",
+        "GunYu.Props.C15.ticker_stops_before_lease_deadline",
         "GunYu.Props.C15.election_id_configured",
         "GunYu.Props.C15.distinct_addresses_distinct_ids",
         "GunYu.Props.C15.renew_le_third",
         "GunYu.Props.C15.lease_bounds",
         "GunYu.Props.C15.two_renewals_within_ttl",
     ],
-    # how the scripts are invoked and how cmd/syncer.go uses the election
-    # (cmd/ is not run in-process; a change here must be re-read against the model)
+    # Only the part of cmd/syncer.go that NO harness executes is pinned by source facts: runCluster after its first
+    # campaign (syncer start/stop around the ticker, resign): the order of the calls that matter and the control-flow
+    # skeleton (log/metric statements removed, string literals blanked, sha256/64 - a changed message or comment does
+    # not alarm). Everything else (scripts, Campaign/Renew/Resign/Leader glue, run(), runCluster up to the first
+    # campaign, clusterTicker/clusterRenew/clusterCampaign, config fix) is executed and needs no fact.
     "expected_facts": {
-        "lease_eval_args_campaign": EVAL_ARGS,
-        "lease_eval_args_resign": EVAL_ARGS,
-        "lease_body_renew": "{ role, err := e.Campaign(ctx) if err != nil { return err } if role != RoleLeader { return ErrNotLeader } return nil }",
-        "lease_body_leader": "{ res, err := common.String(e.cli.Do(\"GET\", e.key)) return &RoleInfo{ Address: res, Role: RoleLeader, }, err }",
-        "lease_ttl_expr": "int(config.GetSyncerConfig().Cluster.LeaseTimeout / time.Second)",
-        "lease_ticker_period": "config.GetSyncerConfig().Cluster.LeaseRenewInterval",
-        "lease_ticker_calls": ["IsClosed", "NewTicker", "GetSyncerConfig", "Stop", "Done", "Context", "Retry",
-                               "clusterRenew", "Context", "Errorf", "clusterCampaign", "Context", "Errorf", "Infof",
-                               "String", "Inc", "Close", "Join", "Close"],
-        # whole-function fingerprints (sha256/64 of the printed source): clusterTicker is executed by the harness,
-        # runCluster only up to its first campaign - any edit needs a conscious re-read against the assumptions
-        "lease_src_clusterTicker": "ee409cb22a03a230",
-        "lease_src_clusterRenew": "4d75433c42b33d37",
-        "lease_src_clusterCampaign": "a9bf5c284ce2821d",
-        "lease_src_runCluster": "7b5c0acc6d9663c0",
-        "lease_newelection_args": ["runWait.Context()", "key", "config.GetSyncerConfig().Server.ListenPeer"],
-        "lease_key_expr": "fmt.Sprintf(\"%s/%s/input-election/%s/\", config.NamespacePrefixKey, config.GetSyncerConfig().Cluster.GroupName, shardKey)",
+        "lease_skel_runCluster": "37a67fb7f5f41332",
         "lease_runcluster_order": ["sc.clusterCampaign", "sy.RunLeader", "elect.Leader", "sy.RunFollower",
                                    "sc.clusterTicker", "sy.Stop", "syncerWait.WgWait", "elect.Resign"],
     },
@@ -65,50 +51,75 @@ PROP = {
             "script text received at run time vs Lean evalLua on the regenerated AST, random stores/KEYS/ARGV incl. malformed ttl. "
             "fix ops: real (*ClusterConfig).fix on a 32x32 grid of boundary durations + generated int64 durations vs Lean fixCfg; cfgfix ops: whole "
             "yaml configurations through InitSyncerConfig (cluster section with/without groupName, metaEtcd, lease/renew on a 13x13 grid, fields "
-            "omitted) - a surviving cluster section must be fixed. C15cmd: ident/contend ops: every pair of two hosts' server sections (listen x "
-            "listenPeer unset / host address / 0.0.0.0 / loopback / ':port') through the real InitSyncerConfig + the REAL (*SyncerCmd).runCluster "
-            "(key and election id derivation, first campaign) + real redis election against the lease-store double at one instant; ticker ops: "
-            "the REAL (*SyncerCmd).clusterTicker under testing/synctest with a scripted Election, ALL answer scripts of length<=4 (quick) / <=6 "
-            "(thorough) for both roles + random scripts/periods, calls with their virtual instants and when/how the syncer's wait is closed vs "
-            "Lean tickerRun. "
-            "Monitors on the real code (independent of Lean): two-holders, success-over-foreign-lease, success-without-full-lease, "
-            "failed-renew-not-reported, foreign-lease-changed, resign-released-foreign-lease, resign-keeps-own-lease, lost-call-not-an-error, "
-            "lease/renew/ttl-out-of-bounds, cluster-section-not-fixed, two-hosts-told-leader, failed-renewal-not-acted-on, "
-            "follower-win-not-acted-on, ticker-period. distinct_nontrivial = distinct event lists with >=2 instances and >=4 events (+ distinct kept "
-            "lease/renew pairs)",
+            "omitted) - a surviving cluster section must be usable (ttl >= 1, 0 < renew <= lease/3, renew < ttl). C15cmd: ident ops: every server "
+            "section (listen unset / host IP / 0.0.0.0 / loopback / ':port' / localhost x listenPeer unset / IP / 0.0.0.0 / host name / [::]) "
+            "with and without cluster section through the real InitSyncerConfig, real fixConfig and the REAL (*SyncerCmd).run() (builds the "
+            "lease-store client with its own ttl, registers, runCluster derives key and election id and campaigns through the real redis "
+            "election; the double holds the reply of that first EVAL while the harness reads the store and closes the run); contend ops: pairs "
+            "of two hosts' server sections (quick: 12x12 sub-matrix, thorough: 30x30) run that way at one instant on the store's clock; "
+            "leasettl ops: 12x8 grid of leaseTimeout x leaseRenewInterval (incl. unset), ttl as written to the store by the real run() and the "
+            "renew period vs Lean ttlSeconds/fixCfg; ticker ops: the REAL (*SyncerCmd).clusterTicker (+ real clusterRenew/clusterCampaign) "
+            "under testing/synctest with a scripted Election, ALL answer scripts of length<=4 (quick) / <=6 (thorough) for both roles, each "
+            "leader script of length<=3 also followed by 10 failures, + random scripts/periods 1-200 s: calls with their virtual instants and "
+            "when/how the syncer's wait is closed vs Lean tickerRun (exact periods / same-instant reaction are compared THERE only); shared "
+            "ops: one client shared by two elections used concurrently while a reply is stalled. "
+            "Monitors on the real code (independent of Lean; each demands only what C15 states - inequalities relative to ttl, never the "
+            "implementation's particular constants): two-holders, two-hosts-told-leader, success-over-foreign-lease, told-leader-without-answer, "
+            "success-without-lease (told leader => the store holds the caller's value at least until its deadline), failed-renew-not-reported, "
+            "foreign-lease-changed, resign-released-foreign-lease, leads-past-its-lease (wait still open more than one ttl after the last "
+            "successful renewal), lease-ends-before-next-renewal (ttl written by run() <= renew period), lease-ttl-not-positive, "
+            "renew-exceeds-third-of-lease, cluster-section-not-fixed. Everything else (exact expiry, 3 s/600 s/1 s limits, ticker period, "
+            "refusals, resign that keeps the lease, follower win) is counters + model diff. distinct_nontrivial = distinct event lists with >=2 "
+            "instances and >=4 events (+ distinct kept lease/renew pairs, + host pairs that both campaigned)",
     "trusted": [
         "Redis semantics transcribed in Model/Lease.lean: GET / SET..EX / EXPIRE / DEL on a string key with expiry (live while now <= expiry, "
         "EX seconds = 1000 ms, SET EX 0 is an error, EXPIRE 0 deletes), Lua == / truthiness / scoping for the subset, Lua->RESP reply "
         "conversion, atomicity of one EVAL; non-negative decimal ttl only",
         "Lua-subset parser of the extractor (harness/extract/c15.go) - cross-checked each run against an independently written "
         "parser+interpreter in the lease-store double on the script text the real code sends",
-        "lease-store double (RESP server, logical clock, fault injection) in harness/overlay/pkg/cluster/vf_c15_store_test.go",
+        "lease-store double (RESP server, logical clock, fault injection) in harness/overlay/pkg/cluster/vf_hook_c15_store.go; host part of a peer address: only the spellings '' / 0.0.0.0 / :: of the unspecified address are modelled (Model/Lease.lean unspecHost)",
     ],
     "assumptions": [
         "script atomicity and ONE authoritative clock at the lease store (no claim about wall-clock skew between an instance and the store: "
         "'holder' is defined on the store's clock from the instant the script ran)",
-        "instance ids are distinct. Reduced to: the peer addresses WRITTEN in the hosts' configurations (server.listenPeer, else server.listen) "
-        "are distinct (election_id_configured / distinct_addresses_distinct_ids; since fix 6c9227b a cluster-mode configuration without a "
-        "configured address, or with an unspecified one, is refused - before, every default-configured host contended as 127.0.0.1:18001 and "
-        "each was told leader). Two hosts explicitly given the same address remain one contender for the store",
-        "an instance stops acting as leader before it calls Resign (runCluster: sy.Stop(); syncerWait.WgWait(); elect.Resign - statement "
-        "order compared as source fact lease_runcluster_order); after an error from Campaign/Renew its belief is unchanged until the next "
-        "answer or until its lease (counted from its last success) runs out",
-        "cmd/syncer.go: clusterTicker is executed for real (scripted Election, virtual time) and runCluster up to its first campaign; the rest "
-        "of runCluster (start/stop of the syncer around the ticker, Resign after sy.Stop/WgWait) is tied by source facts only (statement order "
-        "+ whole-function fingerprints); a Resign that is skipped or late only delays takeover by <= ttl (takeover_possible)",
-        "'holder' is a ghost notion on the STORE's clock (told leader + within ttl of the last success, holder_until_deadline). What the "
-        "instance does is: keep RunLeader going until an answer says otherwise (ticker_failed_renewal_stops_leader). NOT covered: an instance "
-        "whose renewal call never returns keeps leading past its lease - redisElection.Campaign ignores its context (client.Do has no deadline; "
-        "measured every run: stat renew_ignores_ctx_deadline), so clusterRenew's WithTimeout(LeaseRenewInterval) has no effect; nor clock "
-        "drift between instance and store. The property text speaks of being TOLD leader while the lease is unexpired, which this does not "
-        "contradict",
-        "lease store reached through client.NewRedis(Input.Redis) as a standalone connection; a cluster-type input (EVAL routed by key, MOVED, "
-        "re-issue on another node) is not exercised",
+        "the lease store IS the source Redis (client.NewRedis(Input.Redis)): a fail-over of the source loses or forks the lease; reached as "
+        "a standalone connection in the harness - a cluster-type input (EVAL routed by key, MOVED, re-issue on another node) is not exercised",
+        "the lease key is built from the source shard's master ADDRESS as each instance sees it (not a shard identity): instances with "
+        "different views of a shard's master (during a source fail-over) contend on different keys for one shard. Outside the model",
+        "instance ids are the configured peer STRINGS (server.listenPeer, else server.listen); equal strings = one contender. Since fix "
+        "6c9227b a cluster-mode configuration without a configured address or with an unspecified host is refused (before, every "
+        "default-configured host contended as 127.0.0.1:18001 and each was told leader). Host names and loopback are taken as written: two "
+        "hosts both configured `localhost:18001` (or the same literal address) still share one identity - an operator error no local "
+        "configuration check can see (docs: 'do not use 127.0.0.1'); the theorems REDUCE 'ids distinct' to 'configured strings distinct' "
+        "(distinct_addresses_distinct_ids), they do not discharge it",
+        "an instance stops acting as leader before it calls Resign (runCluster: sy.Stop(); syncerWait.WgWait(); elect.Resign - call order + "
+        "control-flow skeleton compared as source facts; that Stop() really ends every output goroutine is syncer code outside C15's "
+        "harnesses); after an error from Campaign/Renew its belief is unchanged until the next answer or until its lease runs out",
+        "cmd/syncer.go: run(), runCluster up to its first campaign, clusterTicker/clusterRenew/clusterCampaign are executed for real; the rest "
+        "of runCluster is tied by source facts only; a Resign that is skipped or late only delays takeover by <= ttl (takeover_possible)",
+        "'holder' is a ghost notion on the STORE's clock (told leader + within ttl of the last success). What the instance DOES is tied "
+        "separately: the real ticker closes the syncer's wait no later than one ttl after the last successful renewal (monitor "
+        "leads-past-its-lease; model theorem ticker_stops_before_lease_deadline) - with election calls that RETURN. NOT covered: a renewal "
+        "call that never returns keeps the instance leading past its lease: redisElection.Campaign ignores its context (client.Do has no "
+        "deadline; measured every run: stat renew_ignores_ctx_deadline), so clusterRenew's WithTimeout(LeaseRenewInterval) has no effect; "
+        "nor clock drift between instance and store. The property text speaks of being TOLD leader while the lease is unexpired, which this "
+        "does not contradict",
+        "one client connection is shared by all elections of an instance and its registry keep-alive; RedisConn.Do holds its mutex over "
+        "send+receive and has no read deadline, so replies cannot be mis-attributed (shared ops exercise concurrent use with a stalled "
+        "reply). A client that abandons a reply without closing the connection (read deadline added naively) is not covered: the double "
+        "stalls on a logical clock, no client-side timeout exists to trip",
         "the registry keys of redisCluster.Register live under a different prefix and are not modelled",
-        "ttl >= 1 s (theorem hypothesis; lease_bounds proves ttl >= 3 for every output of ClusterConfig.fix)",
+        "ttl >= 1 s (theorem hypothesis; lease_bounds proves ttl >= 3 for every output of ClusterConfig.fix; cfgfix/leasettl ops tie it)",
     ],
-    "partial": [],
+    "partial": [
+        "acting interval: 'at most one instance RUNS RunLeader' is proved only in the split form holder-uniqueness (store clock) + "
+        "ticker model with zero-duration calls (ticker_stops_before_lease_deadline); an election call that blocks is outside both",
+        "near-definitional theorems, kept as named corollaries, not counted as content: at_most_one_holder_always (instance of "
+        "at_most_one_holder), lost_resign_only_own, holder_until_deadline and the first conjunct of expiry_bound (told is frozen while the "
+        "instance does not call), election_id_configured / distinct_addresses_distinct_ids (the 3-line definition electionId read backwards; "
+        "their content is the tie of electionId to the real configuration code through run())",
+        "ticker theorems are about the 10-line model tickerRun (tied by all scripts <= 4/6 + random under virtual time), not about cmd/syncer.go directly",
+    ],
 }
 
 MANIFEST = {
